@@ -264,7 +264,8 @@ var errInjected = errors.New("injected transport error")
 type chunkReader struct {
 	data     []byte
 	pos      int
-	mode     int // 0 all at once, 1 byte by byte, 2 random
+	mode     int // 0 all at once, 1 byte by byte, 2 random, 3 two pieces cut at cutAt
+	cutAt    int
 	err      error
 	errAt    int // offset at which err is returned (len(data) = after everything)
 	drawn    int // bytes handed out
@@ -288,6 +289,10 @@ func (c *chunkReader) Read(p []byte) (int, error) {
 	switch c.mode {
 	case 1:
 		n = 1
+	case 3:
+		if c.pos < c.cutAt && c.pos+n > c.cutAt {
+			n = c.cutAt - c.pos
+		}
 	case 2:
 		if c.zeroRuns < 3 && dsim.Choose(12) == 11 {
 			c.zeroRuns++
